@@ -390,6 +390,44 @@ theorem supports_fuel (c : Collect) (parts : List Name) (hc : ∀ h ∈ c, headW
   exact matches_fuel _ false _ _ hwf hsorted (hsm _ hh) (hf _ hh)
 
 
+mutual
+  theorem szT_le_size : ∀ (t : Tree), szT t + 2 ≤ 4 * size t
+    | .simple _ => by simp [szT, size]
+    | .and cs => by
+      have := szTL_le_sizeL cs
+      simp only [szT, size]; omega
+    | .or cs => by
+      have := szTL_le_sizeL cs
+      simp only [szT, size]; omega
+    | .andor cs => by
+      have := szTL_le_sizeL cs
+      simp only [szT, size]; omega
+  theorem szTL_le_sizeL : ∀ (cs : List Tree), szTL cs + 2 * cs.length ≤ 4 * sizeL cs
+    | [] => by simp [szTL, sizeL]
+    | c :: cs => by
+      have h1 := szT_le_size c
+      have h2 := szTL_le_sizeL cs
+      simp only [szTL, sizeL, List.length_cons]
+      omega
+end
+
+theorem size_le_sizeL {h : Tree} : ∀ {c : List Tree}, h ∈ c → size h ≤ sizeL c
+  | [], hh => by cases hh
+  | a :: l, hh => by
+    simp only [sizeL]
+    rcases List.mem_cons.mp hh with e | e
+    · subst e; omega
+    · have := size_le_sizeL e; omega
+
+/-- the fuel hypothesis of `supports_fuel` holds whenever no list has more than 4096 choice combinations -/
+theorem fuel_of_capT (c : Collect) (hcap : ∀ h ∈ c, capT h ≤ 4096) : ∀ h ∈ c, capT h + 2 * szT h + 2 ≤ defaultFuel c := by
+  intro h hh
+  have h1 := hcap h hh
+  have h2 := szT_le_size h
+  have h3 := size_le_sizeL hh
+  unfold defaultFuel
+  omega
+
 theorem toplevel_NF : ∀ (acc : List Tree) (nm : Name), NF (toplevel acc nm)
   | [], _ => by simp only [toplevel]; exact NF_ok _
   | [.simple n], nm => by
